@@ -126,6 +126,7 @@ class Signal(object):
         self._fa_spectrum = fa[range(points)] * self.dt
         self._fa_freqs = np.arange(points) / (n_factor * self.dt)
         self._cached_fa = True
+        self._cached_smooth_fa = False  # the smoothed spectrum is derived from the Fourier spectrum just replaced
 
     def generate_fa_spectrum(self):
         self.gen_fa_spectrum()
